@@ -501,6 +501,21 @@ theorem intake_view_fixed (l : List Attr) :
     (intake (intake l AttrState.empty).view AttrState.empty).view = (intake l AttrState.empty).view :=
   intake_view_stable l
 
+/-- Why "built through the DOM API" is read as *constructed* (`CNode`) in the theorems above, and the recorded finding
+    `C01-class-position-after-look` in the model's terms: a store in which `class` was materialised by a look and a NEW
+    attribute was added afterwards lists `class` before that attribute; it renders that way, and the store the constructor
+    builds from the rendering lists `class` last — same pairs, another order, so the second serialisation is another string.
+    (The library does exactly this: `t.addClass('k'); t.outerHTML; t.setAttribute('href', 'x')`; the check's `late` variant
+    replays it and reports it as the known finding.) -/
+def lateStore : AttrState := ⟨[("class".toList, some "k".toList), ("href".toList, some "x".toList)], ["k".toList], []⟩
+
+theorem late_attribute_not_viewStable :
+    ¬ ViewStable lateStore ∧
+    startTag "span".toList lateStore false = "<span class=\"k\" href=\"x\" >".toList ∧
+    startTag "span".toList (intake lateStore.view AttrState.empty) false = "<span href=\"x\" class=\"k\" >".toList ∧
+    (intake lateStore.view AttrState.empty).view.map (·.1) = ["href".toList, "class".toList] := by
+  refine ⟨by unfold ViewStable; decide, by decide, by decide, by decide⟩
+
 /-- a re-read store is re-read exactly ever after (any number of round trips) -/
 theorem reintake_viewStable (a : AttrState) : ViewStable (reintakeA a) := isIntake_stable_reintake a
 
